@@ -265,3 +265,40 @@ pub fn tapes_snapshot(t: &Tape) -> Tapes {
 pub fn draw_hash_seed(tape: &mut Tape) -> u64 {
   tape.draw(Stream::Hash, u32::MAX) as u64
 }
+
+
+/// A `jsr:` specifier that both graphs resolved, but to files of different
+/// package versions. (When a later resolution of the same requirement
+/// overwrote the package table entry the two tables can agree while the
+/// redirects of the specifiers resolved earlier do not.)
+pub fn jsr_redirect_difference(
+  a: &serde_json::Value,
+  b: &serde_json::Value,
+) -> Option<(String, String, String)> {
+  let pick = |v: &serde_json::Value| -> Option<serde_json::Map<String, serde_json::Value>> {
+    v.get("redirects")
+      .and_then(|r| r.as_object())
+      .or_else(|| {
+        v.get("serialized")
+          .and_then(|s| s.get("redirects"))
+          .and_then(|r| r.as_object())
+      })
+      .cloned()
+  };
+  let (ra, rb) = (pick(a)?, pick(b)?);
+  for (k, tb) in &rb {
+    if !k.starts_with("jsr:") {
+      continue;
+    }
+    if let Some(ta) = ra.get(k) {
+      if ta != tb {
+        return Some((
+          k.clone(),
+          ta.as_str().unwrap_or("").to_string(),
+          tb.as_str().unwrap_or("").to_string(),
+        ));
+      }
+    }
+  }
+  None
+}
